@@ -310,7 +310,7 @@ pub fn seg_hot_cases(prop: &'static str, w: [u32; 7], len: RangeInclusive<usize>
                 spec(w[1] * 2, S_QUERY, &[hot.clone(), 0..=1, hot.clone(), 0..=1, 0..=35]),
                 spec(w[1], S_QUERY, &[0..=31, 0..=3, 0..=31, 0..=3, 0..=35]),
                 spec(w[2], S_ADV, &[0..=2]),
-                spec(w[3], S_CLEAR, &[0..=2]),
+                spec(w[3], S_CLEAR, &[0..=2, 0..=1]),
                 spec(w[4], S_QUERYALL, &[]),
                 spec(w[5] * 2, S_PINS, &[hot.clone(), 0..=1, 0..=4]),
                 spec(w[6], S_PQUERY, &[hot.clone(), 0..=1]),
@@ -334,7 +334,7 @@ pub fn seg_table(w: &[u32; 7]) -> Vec<OpSpec> {
         spec((w[0] / 10).max(if w[0] > 0 { 1 } else { 0 }), S_INS, &[0..=31, 0..=11, 0..=31, 0..=11, 9..=9]),
         spec(w[1], S_QUERY, &[0..=31, 0..=11, 0..=31, 0..=11, 0..=35]),
         spec(w[2], S_ADV, &[0..=2]),
-        spec(w[3], S_CLEAR, &[0..=2]),
+        spec(w[3], S_CLEAR, &[0..=2, 0..=1]),
         spec(w[4], S_QUERYALL, &[]),
         spec(w[5], S_PINS, &[0..=31, 0..=11, 0..=4]),
         spec(w[6], S_PQUERY, &[0..=31, 0..=11]),
@@ -376,7 +376,7 @@ pub fn seg_clear_cases(prop: &'static str) -> BoxedStrategy<Case> {
                 c.set("clock0", i32::MAX as i64 - 3);
             }
             c.ops = a;
-            c.ops.push(RawOp::new(S_CLEAR, &[c0]));
+            c.ops.push(RawOp::new(S_CLEAR, &[c0, ((c.ops.len() as i64) + c0) % 2]));
             c.ops.extend(b);
             c
         })
@@ -682,7 +682,7 @@ pub fn seg_expire_partial_clear_cases(prop: &'static str) -> BoxedStrategy<Case>
         spec(2, S_QUERY, &[0..=31, 0..=3, 0..=31, 0..=3, 0..=0]),
         spec(1, S_ADV, &[0..=1]),
     ];
-    (pick(&doms), ops_strategy(&ins, 1..=7), 1..=3i64, ops_strategy(&looks, 0..=6), (0..=6i64, ops_strategy(&narrow, 0..=10)), 0..=2i64, ops_strategy(&ins, 1..=3), ops_strategy(&after, 3..=14))
+    (pick(&doms), ops_strategy(&ins, 1..=7), 1..=3i64, ops_strategy(&looks, 0..=6), (0..=6i64, ops_strategy(&narrow, 0..=10)), 0..=2i64, ops_strategy(&ins, 1..=9), ops_strategy(&after, 3..=14))
         .prop_map(move |((lo, dlen, rt), a, jump, b, (jump2, b2), c0, c, d)| {
             let mut k = Case::new(prop, "seg");
             k.set("lo", lo).set("len", dlen).set("rtype", rt);
@@ -691,7 +691,7 @@ pub fn seg_expire_partial_clear_cases(prop: &'static str) -> BoxedStrategy<Case>
             k.ops.extend(b);
             k.ops.push(RawOp::new(S_ADV, &[jump2]));
             k.ops.extend(b2);
-            k.ops.push(RawOp::new(S_CLEAR, &[c0]));
+            k.ops.push(RawOp::new(S_CLEAR, &[c0, (jump + jump2) % 2]));
             k.ops.extend(c);
             k.ops.extend(d);
             k
